@@ -871,7 +871,7 @@ func (ss *SpecSet) parseFile(path, pkg string) error {
 				cur.LoopMods[n] = append(cur.LoopMods[n], c)
 				continue
 			}
-			if f[1] != "invariant" && f[1] != "decreases" {
+			if f[1] != "invariant" && f[1] != "decreases" && f[1] != "exit" {
 				return fail(fmt.Errorf("bad loop clause kind %s", f[1]))
 			}
 			e, err := parseExpr(body)
